@@ -197,7 +197,9 @@ ExprUnits(cap, mode, full) ==
       core == {<<It("str", "ok", "half", "T", pfx)>>, sec("big", IF mode = "plain" THEN "F" ELSE "T"), <<big>>}
       more == {<<It("str", "ok", "small", "T", pfx)>>, <<It("str", "noeq", "small", "T", pfx)>>, <<It("str", "empty", "zero", "T", pfx)>>,
                <<It("str", "ok", "big", "T", pfx)>>, sec("small", "T"),
-               <<It("str", "marker", "small", "T", pfx)>>}
+               <<It("str", "marker", "small", "T", pfx)>>,
+               \* two expressions that fit the budget one by one but not together
+               <<It("str", "ok", "half", "T", pfx), It("str", "ok", "half", "T", pfx)>>}
                \cup IF mode = "enc" THEN {<<It("str", "ok", "small", "T", "neg1")>>,
                                           <<It("str", "ok", "small", "T", "i32max")>>} ELSE {}
   IN IF full THEN core \cup more ELSE core
@@ -276,7 +278,7 @@ Alphabet(ep) ==
     [] ep \in {"ImportSecSessionInfo", "ImportSessionInfoAttributes"} ->
          {"lbr", "rbr", "attr", "quote", "eq", "semi", "word", "long"}
     [] ep \in {"ParseSinful", "ParseHTCondorAddress", "SplitCCBContact"} ->
-         {"lt", "gt", "hostport", "qm", "amp", "sockeq", "ccbideq", "hash", "pct", "pctbad", "sp", "long"}
+         {"angle", "hostport", "qm", "amp", "param", "hash", "pct", "pctbad", "sp", "long"}
     [] ep = "VersionParse" -> {"vtag", "num", "dot", "hugenum", "sp", "word", "long"}
     [] OTHER -> {}
 
@@ -307,6 +309,7 @@ ProgScnsOf(fam, eps, modes) ==
          ep \in eps, m \in modes}
 \* the last item can only be cut if there is one; cut + eof is covered by eom + cut
 ProgOK(s) == (s.cut => Len(s.items) > 0 /\ s.fin = "eom")
+             /\ (s.ep = "GetBytes" => Len(s.items) > 0)   \* the length is an API argument
              /\ \A i \in 1..Len(s.items) :   \* an unterminated string runs to the end of input
                   (s.items[i].k = "str" /\ s.items[i].t = "F") => i = Len(s.items)
 
@@ -483,7 +486,8 @@ ProgStarved ==
   /\ ~HasItem /\ ~ProgDone
   /\ UNCHANGED <<scn, pc, ii, lastv, budget, capx, depth>>
   /\ LET op == CurOp IN
-     IF scn.fin = "eof" /\ op.o # "eomchk" THEN Use(0, 0, 1) /\ End("error", TRUE) /\ Keep(left)
+     IF scn.fin = "eof" /\ op.o # "eomchk" /\ ~(op.o = "bytes" /\ lastv <= 0)
+     THEN Use(0, 0, 1) /\ End("error", TRUE) /\ Keep(left)
      ELSE CASE op.o = "int" /\ op.role = "arg" -> Use(0, 0, 1) /\ End("error", FALSE) /\ Keep(left)
             [] op.o = "int" /\ op.role # "arg" -> Use(0, 0, 1) /\ End("error", TRUE) /\ Keep(left)
             [] op.o = "bytes" ->
